@@ -572,6 +572,12 @@ def mutate_xodr(text, kind, seed):
                 return f'{m.group(1)}<link><predecessor id="{m.group(2)}"/><successor id="{m.group(2)}"/></link>'
             return m.group(0)
         return re.sub(r'(<lane id="(-?[1-9]\d*)"[^>]*>\s*)<link\s*/>', add, text)
+    if kind == "drop-connecting-road-links":
+        # connecting roads (junction != -1) lose their road-level predecessor link: the junction's <connection> elements carry
+        # the same information, and the parser resolves the lanes of connecting roads from them
+        def drop(m):
+            return m.group(1) if rng.random() < 0.5 else m.group(0)
+        return re.sub(r'(<road\b(?=[^>]*\bjunction="(?!-1")[^"]+")[^>]*>\s*<link>\s*)(<predecessor\b[^>]*elementType="road"[^>]*/>\s*)', drop, text)
     raise ValueError(kind)
 
 
@@ -929,6 +935,27 @@ def process_map(job):
                     issue("lookup:elementAt:priority",
                           f"elementAt({x!r}, {y!r}) returned a {names[got]} where the documented order gives a {names[exp]}",
                           {"point": [x, y], "lookup": "elementAt"})
+            # direct: mutual consistency of the lookups: a lane found at a point that also lies in the polygon of the lane's road
+            # (resp. a section of the lane, a group of the road) => the road (section, group) lookup finds something containing it
+            if not und and -1 not in real.values():
+                el = lambda i: None if i is None else geo.elems[i - 1]
+                ln, rd_, gp, ls = el(real["laneAt"]), el(real["roadAt"]), el(real["laneGroupAt"]), el(real["laneSectionAt"])
+                exs = set(exact)
+                checks = []
+                if ln is not None and real["laneAt"] in exs:
+                    if idx.get(id(ln.road)) in exs:
+                        checks.append(("laneAt->roadAt", real["roadAt"] in exs, ln.uid))
+                    if idx.get(id(ln.group)) in exs and rd_ is ln.road:  # laneGroupAt searches the groups of the road found
+                        checks.append(("laneAt->laneGroupAt", real["laneGroupAt"] in exs, ln.uid))
+                    if any(idx.get(id(sc)) in exs for sc in ln.sections):
+                        checks.append(("laneAt->laneSectionAt", real["laneSectionAt"] in exs, ln.uid))
+                for nm_, ok_, who in checks:
+                    H("lookup_consistency", nm_ + (":ok" if ok_ else ":INCONSISTENT"))
+                    if not ok_:
+                        issue(f"lookup:inconsistent:{nm_}",
+                              f"at ({x!r}, {y!r}) laneAt returns {who}, which contains the point together with its parent, but "
+                              f"{nm_.split('->')[1]} returns {None if real[nm_.split('->')[1]] is None else geo.elems[real[nm_.split('->')[1]] - 1].uid}",
+                              {"point": [x, y], "lookup": nm_.split("->")[1]})
             # direct: drivable coverage
             if not und and drivable.intersects(shapely.Point(x, y)):
                 H("drivable_point", "covered" if (real["roadAt"] or real["intersectionAt"]) else "UNCOVERED")
@@ -1507,6 +1534,16 @@ def corr_cache(ctx, small_map):
         lines.append(f"C20 frompickle {h.hex() or '-'} {'ok' if pay_ok else 'bad'} {optarg(od)} {optarg(oo)}")
         py.append(real)
         ctx.hist("frompickle_outcome", real)
+        # direct (no model): a file is accepted iff it is complete, its version is current, its digests equal the expected
+        # ones (when expected ones are given) and its payload unpickles
+        should = len(h) >= 76 and h[:4] == struct.pack("<I", cur) and (not od or h[4:68] == od) and (not oo or h[68:76] == oo) and pay_ok
+        if (real == "ok") != bool(should):
+            which = "map digest" if od and h[4:68] != od else "options digest" if oo and h[68:76] != oo else "version / length / payload"
+            if ctx.violation(f"cache:frompickle:{'accepted-mismatch' if real == 'ok' else 'rejected-match'}",
+                             f"fromPickle on a cache file whose header {'does not match' if not should else 'matches'} the expected keys ({which}) "
+                             f"-> {real}", {"kind": "frompickle", "map": small_map, "header": h.hex(), "payload_ok": pay_ok,
+                                            "orig": None if od is None else od.hex(), "opts": None if oo is None else oo.hex()}):
+                found = True
     # ---- fromFile: cached or parsed
     calls = []
     orig_od = roads.Network.__dict__["fromOpenDrive"]
@@ -1689,6 +1726,15 @@ def corr_cache(ctx, small_map):
         lines.append("C20 opthash " + " ".join(toks))
         real = deterministicHash(dict(items), digest_size=8).hex()
         py.append(("H", real))
+        try:
+            canon = deterministicHash(dict(sorted(d.items(), key=lambda kv: str(kv[0]))), digest_size=8).hex()
+        except Exception:
+            canon = real
+        if canon != real:  # direct: the same options given in another order must select the same cache
+            if ctx.violation("cache:options-digest-order-dependent",
+                             f"deterministicHash depends on the order of the options: {dict(items)!r} -> {real}, sorted -> {canon}",
+                             {"kind": "opthash-order", "items": [[k, v] for k, v in items if isinstance(v, (int, float, str, bool, type(None)))]}):
+                found = True
         digests.setdefault(real, []).append(d)
         ctx.hist("options_case", f"{len(d)}-keys")
     # direct: option sets that build different networks must not share a digest (typed option space of fromOpenDrive)
@@ -1758,7 +1804,8 @@ def make_jobs(ctx):
     # mutated variants of the smaller maps
     small = [rel for rel, size in present if size < 600_000] or [rel for rel, size in present]
     rng = random.Random(f"{ctx.seed}:mutants")
-    kinds = ["drop-lane-links", "perturb-geometry", "perturb-width", "junction-id-zero", "lane-links-at-junctions"]
+    kinds = ["drop-lane-links", "perturb-geometry", "perturb-width", "junction-id-zero", "lane-links-at-junctions",
+             "drop-connecting-road-links"]
     for k in range(B(ctx, 6, 60)):
         rel = rng.choice(small)
         kind = kinds[k % len(kinds)]
@@ -1798,6 +1845,16 @@ def run(ctx):
         ctx.escalated.append(f"translator tie lost (roads): {e}")
         ctx.notes.append(f"translator tie lost for roads.py: {e}; relying on the correspondence run at thorough budget")
     pr = ctx.prove(THEOREMS, side_conditions=SIDE)
+    if not pr.build_ok:
+        # a side condition on the generated data (or a proof) no longer checks.  Failing-input search: run the correspondence
+        # against the *reference* model (data of the pinned source = the documented behaviour), so that every point / file on
+        # which the current source deviates from it becomes a concrete failing input
+        ctx.gen("Roads", troads.to_lean(troads.PINNED))
+        rc, log = ctx.lake(["build", "drv_c20"])
+        ctx.notes.append("Lean build failed on the data generated from the current source; the correspondence was run against the "
+                         "reference model (Gen/Roads.lean = data of the pinned source)" + ("" if rc == 0 else "; the driver could not be rebuilt"))
+        if rc != 0:
+            ctx.escalated.append("Lean driver does not build")
     if ctx.tier == "thorough" and pr.build_ok:
         ctx.leanchecker(["ScenicModel.Props.C20", "ScenicModel.Props.C20Links", "ScenicModel.Props.C20Lookup",
                          "ScenicModel.Props.C20Cache", "ScenicModel.Props.C20Direction", "ScenicModel.Props.C20Adjacency"])
@@ -1964,6 +2021,37 @@ def replay(ctx, path):
                       and cache[68:76] == deterministicHash(rep["options"], digest_size=8))
         print(f"fromFile(useCache={rep['use_cache']}, options={rep['options']}) -> {real}; cache keys match: {should}")
         return 1 if (real == "cached") != should or real.startswith("raised") else 0
+    if kind == "frompickle":
+        roads = R()
+        work = os.path.join(ctx.tmp, "replay-frompickle")
+        os.makedirs(work, exist_ok=True)
+        src = os.path.join(work, "m.xodr")
+        shutil.copyfile(os.path.join(ctx.repo, rep["map"]), src)
+        roads.Network.fromFile(src, useCache=False, writeCache=True)
+        payload = open(os.path.join(work, "m" + roads.Network.pickledExt), "rb").read()[76:]
+        h = bytes.fromhex(rep["header"])
+        od = None if rep["orig"] is None else bytes.fromhex(rep["orig"])
+        oo = None if rep["opts"] is None else bytes.fromhex(rep["opts"])
+        f2 = os.path.join(work, "crafted.snet")
+        open(f2, "wb").write(h if len(h) < 76 else h + (payload if rep["payload_ok"] else payload[: len(payload) // 2] + b"garbage"))
+        try:
+            roads.Network.fromPickle(f2, originalDigest=od, optionsDigest=oo)
+            real = "ok"
+        except BaseException as e:  # noqa
+            real = type(e).__name__
+        cur = roads.Network._currentFormatVersion()
+        should = bool(len(h) >= 76 and h[:4] == struct.pack("<I", cur) and (not od or h[4:68] == od) and (not oo or h[68:76] == oo)
+                      and rep["payload_ok"])
+        print(f"fromPickle(header {h[:4].hex()}|{h[4:68].hex()[:16]}…|{h[68:76].hex()}, expected digests given: {bool(od)}/{bool(oo)}) -> {real}; "
+              f"keys match: {should}")
+        return 1 if (real == "ok") != should else 0
+    if kind == "opthash-order":
+        from scenic.core.serialization import deterministicHash
+        items = [(k, v) for k, v in rep["items"]]
+        a = deterministicHash(dict(items), digest_size=8)
+        b = deterministicHash(dict(sorted(items, key=lambda kv: str(kv[0]))), digest_size=8)
+        print(dict(items), a.hex(), "sorted:", b.hex())
+        return 1 if a != b else 0
     if kind == "opthash":
         from scenic.core.serialization import deterministicHash
         a, b = deterministicHash(rep["a"], digest_size=8), deterministicHash(rep["b"], digest_size=8)
